@@ -25,7 +25,25 @@ THE SOFTWARE.
 
 # {{{ fuse_two_phases
 
-def fuse_two_phases(phase_name, phase1, phase2):
+def _rename_guard_and_loop_variables(stmt, subst):
+    """:meth:`map_expressions` of the statement classes leaves the condition
+    and the loop variables of a statement alone. Rename those as well.
+    """
+    from pymbolic.mapper.substitutor import SubstitutionMapper, make_subst_func
+    subst_map = SubstitutionMapper(make_subst_func(subst))
+
+    new_fields = {}
+    if hasattr(stmt, "condition"):
+        new_fields["condition"] = subst_map(stmt.condition)
+    if getattr(stmt, "loops", None):
+        new_fields["loops"] = [
+                (subst[ident].name if ident in subst else ident, start, end)
+                for ident, start, end in stmt.loops]
+
+    return stmt.copy(**new_fields)
+
+
+def fuse_two_phases(phase_name, phase1, phase2, should_disambiguate_name=None):
     from dagrt.language import ExecutionPhase
     if phase1 is not None and phase2 is not None:
         if phase1.next_phase != phase2.next_phase:
@@ -33,9 +51,24 @@ def fuse_two_phases(phase_name, phase1, phase2):
                     "phase transition out of phase '%s'"
                     % phase_name)
 
-        from pymbolic.imperative.transform import disambiguate_and_fuse
-        new_statements, _, old_2_id_to_new_2_id = disambiguate_and_fuse(
-                phase1.statements, phase2.statements)
+        if should_disambiguate_name is None:
+            # Persistent variables, time and time step are shared.
+            from dagrt.utils import is_state_variable
+
+            def should_disambiguate_name(name):
+                return not is_state_variable(name)
+
+        from pymbolic.imperative.transform import (
+                disambiguate_identifiers,
+                fuse_statement_streams_with_unique_ids)
+        statements2, subst2 = disambiguate_identifiers(
+                phase1.statements, phase2.statements,
+                should_disambiguate_name)
+        statements2 = [
+                _rename_guard_and_loop_variables(stmt, subst2)
+                for stmt in statements2]
+        new_statements, _ = fuse_statement_streams_with_unique_ids(
+                phase1.statements, statements2)
 
         return ExecutionPhase(
                 name=phase1.name,
@@ -63,7 +96,8 @@ def fuse_two_dags(dag1, dag2, phase_correspondences=None,
         phase1 = dag1.phases.get(phase_name)
         phase2 = dag2.phases.get(phase_name)
 
-        new_phases[phase_name] = fuse_two_phases(phase_name, phase1, phase2)
+        new_phases[phase_name] = fuse_two_phases(phase_name, phase1, phase2,
+                should_disambiguate_name)
 
     if dag1.initial_phase != dag2.initial_phase:
         raise ValueError("DAGs don't agree on initial phase")
